@@ -24,8 +24,12 @@ LEMMAS_ITER = [
     {"id": "L3/L4/L5", "statement": "the recursive spec functions PRE/POSTF/LEVEL/LEVELG/ZIG equal the property's reading: the "
      "unrestricted traversal order filtered by (admitted and filter_), admitted = relative depth < maxlevel and no stop node on "
      "the path from the start node; each subtree node exactly once; groups = levels; zig-zag reverses levels 1,3,5,..",
-     "status": "assumed bridge; validated boundedly on every tree <= N nodes x all stop/filter subsets x all maxlevel "
-     "(harness/specfns.py, code-independent); Lean proof pending"},
+     "status": "L5 (pre-order and post-order: budgeted spec function = unrestricted order filtered by admitted and filter_) "
+     "and L3/L4 (pre/post/level orders are permutations of each other; groups flatten to the level order; zig-zag reverses odd "
+     "levels) are proved in Lean over rose trees: " + driver.lean_status("L5_restricted_traversals.lean") + "; " +
+     driver.lean_status("L34_orders.lean") + ". The correspondence between the Lean definitions and the SMT spec functions "
+     "(same equations, written twice) is by review plus the bounded validation of the spec functions against the admitted-set "
+     "reading (harness/specfns.py); the level-order variant of L5 is covered by that bounded validation only."},
 ]
 
 
